@@ -167,12 +167,20 @@ def coq_build(prop, log, tier):
                 for ax in names:
                     if ax not in allow.get(prop, set()) and ax not in allow.get("*", set()):
                         r["broken"].append("theorem %s depends on axiom %s which is not in coq/ASSUMPTIONS.allow" % (th, ax))
-    # forbidden vernacular
+    # forbidden vernacular: every file of this property plus the transitive
+    # dependency closure (coqdep) of its Props.v / Extract.v
     scan = [os.path.join(pdir, f) for f in os.listdir(pdir) if f.endswith(".v")]
-    scan += [os.path.join(COQ, "Base", f) for f in os.listdir(os.path.join(COQ, "Base")) if f.endswith(".v")]
-    deps = dep_props(prop)
-    for d in deps:
-        scan += [os.path.join(COQ, d, f) for f in os.listdir(os.path.join(COQ, d)) if f.endswith(".v")]
+    roots = [os.path.join(prop, f + ".v") for f in ("Props", "Extract") if os.path.exists(os.path.join(pdir, f + ".v"))]
+    rc_d, out_d = sh(["coqdep", "-Q", ".", "DV", "-sort"] + roots, cwd=COQ, timeout=300)
+    closure = [os.path.join(COQ, w) for w in out_d.split() if w.endswith(".v") and os.path.exists(os.path.join(COQ, w))] if rc_d == 0 else []
+    if not closure:
+        closure = [os.path.join(COQ, "Base", f) for f in os.listdir(os.path.join(COQ, "Base")) if f.endswith(".v")]
+        for d in dep_props(prop):
+            closure += [os.path.join(COQ, d, f) for f in os.listdir(os.path.join(COQ, d)) if f.endswith(".v")]
+    for c in closure:
+        if c not in scan:
+            scan.append(c)
+    built_closure = set(closure) | set(os.path.join(pdir, f) for f in os.listdir(pdir) if f.endswith(".v") and os.path.join(pdir, f) in closure)
     for p in scan:
         src = strip_coq_comments(open(p).read())
         depth = 0
@@ -189,6 +197,8 @@ def coq_build(prop, log, tier):
     for p in scan:
         if p.endswith("Gen.v"):
             continue
+        if p not in built_closure:
+            continue   # a file of this directory that Props/Extract do not depend on (scratch, notes)
         src = strip_coq_comments(open(p).read())
         k = len(re.findall(r"^\s*(?:Local\s+|Global\s+)?(?:Theorem|Lemma|Example|Corollary|Fact)\s", src, re.M))
         total += k
